@@ -6,7 +6,7 @@ CONSTANTS
   Lives = {0, 2}
   Serial = {FALSE, TRUE}
   Trashing = {TRUE}
-  WKinds = {"none", "put", "touch", "pull", "pull_any"}
+  WKinds = {"none", "put", "touch", "pull"}
   TKinds = {"none", "delete", "list_eq", "list_stale"}
   XKinds = {"none", "untrash", "empty", "index"}
   MaxActors = 3
